@@ -137,7 +137,7 @@ def run_case(c):
             r["tuning"] = tp
             R.append(r)
     elif k == "chord":
-        t = T[c["ti"] % len(T)]
+        t = tunings.get_tuning(*c["named"]) if "named" in c else T[c["ti"] % len(T)]
         tp = tproj(t)
         name = c["chord"]
         def f():
@@ -152,6 +152,8 @@ def run_case(c):
         def g():
             nc = NoteContainer().from_chord(name)
             best = t.find_chord_fingering(nc, c["maxdist"], 18, c["maxfingers"], return_best_as_NoteContainer=True)
+            if isinstance(best, list) and not best:      # no fingering exists (five chord tones on four strings): nothing is returned
+                return {"names": [nm(x.name) for x in nc], "fgs": []}
             fg = [-1] * tp["strings"]
             for n in best:
                 fg[integer(n.string)] = integer(n.fret)
